@@ -33,6 +33,12 @@ type op struct {
 	Source hexb `json:"source,omitempty"`
 	Yield  int  `json:"yield,omitempty"` // runtime.Gosched calls before the op
 	Spin   int  `json:"spin,omitempty"`  // busy iterations before the op
+	// Repeat > 1: the call is made that many times in a row; every result must equal the first
+	// (not compared for default-source NewMnemonic, whose output is random).
+	Repeat int `json:"repeat,omitempty"`
+	// Wipe, for kind "seed": the caller overwrites the returned slice (as one wipes key material);
+	// later calls must be unaffected. Without it the returned slice is watched for later changes.
+	Wipe bool `json:"wipe,omitempty"`
 }
 
 type phase struct {
@@ -44,26 +50,28 @@ type plan struct {
 	Phases     []phase `json:"phases"`
 	Solo       bool    `json:"solo,omitempty"`  // re-run every op alone at the end
 	Probe      bool    `json:"probe,omitempty"` // finally swap the source and report what was installed
+	// Unswapped: default-source NewMnemonic calls made after the history and before the probe,
+	// with nothing installed (C07: statistics of genuinely unswapped output).
+	Unswapped []op `json:"unswapped,omitempty"`
 	// TeeNew: after the probe, run these NewMnemonic calls with a recording tee around
 	// the previously installed source (C07: output is a function of that source's bytes only).
 	TeeNew []op `json:"tee_new,omitempty"`
 }
 
 type obs struct {
-	Str       text   `json:"str,omitempty"`
-	Bytes     hexb   `json:"bytes,omitempty"`
-	Bool      bool   `json:"bool,omitempty"`
-	Err       string `json:"err,omitempty"` // "", ErrWordLen, ErrEntropyLen, ErrChecksumIncorrect, other
-	ErrMsg    text   `json:"err_msg,omitempty"`
-	Panic     string `json:"panic,omitempty"`
-	Mutated   bool   `json:"mutated,omitempty"` // the entropy's backing array changed during the call
-	TeeBytes  hexb   `json:"tee_bytes,omitempty"`
-	laterCopy []byte
-	live      []byte
+	Str      text   `json:"str,omitempty"`
+	Bytes    hexb   `json:"bytes,omitempty"`
+	Bool     bool   `json:"bool,omitempty"`
+	Err      string `json:"err,omitempty"` // "", ErrWordLen, ErrEntropyLen, ErrChecksumIncorrect, other
+	ErrMsg   text   `json:"err_msg,omitempty"`
+	Panic    string `json:"panic,omitempty"`
+	Mutated  bool   `json:"mutated,omitempty"`  // the entropy's backing array changed during the call
+	Unstable string `json:"unstable,omitempty"` // a repetition of the call gave a different result
+	TeeBytes hexb   `json:"tee_bytes,omitempty"`
 }
 
 func (o obs) key() string {
-	return fmt.Sprintf("%q|%x|%v|%s|%q|%s|%v", string(o.Str), []byte(o.Bytes), o.Bool, o.Err, string(o.ErrMsg), o.Panic, o.Mutated)
+	return fmt.Sprintf("%q|%x|%v|%s|%q|%s|%v|%s", string(o.Str), []byte(o.Bytes), o.Bool, o.Err, string(o.ErrMsg), o.Panic, o.Mutated, o.Unstable)
 }
 
 type report struct {
@@ -73,6 +81,7 @@ type report struct {
 	PrevIsDefault bool      `json:"prev_is_crypto_rand_reader"`
 	PrevType      string    `json:"prev_type,omitempty"`
 	Tee           []obs     `json:"tee,omitempty"`
+	Unswapped     []obs     `json:"unswapped,omitempty"`
 }
 
 func classifyErr(err error) (string, string) {
@@ -109,6 +118,24 @@ func (t *teeReader) Read(p []byte) (int, error) {
 // execOp runs one op against the implementation; watch collects caller-owned
 // buffers to re-check at the end of the history.
 func execOp(o *op, watch *[]liveBuf, name string) obs {
+	first := execOnce(o, watch, name)
+	if o.Repeat > 1 {
+		random := o.Kind == "new" && len(o.Source) == 0
+		for i := 1; i < o.Repeat; i++ {
+			again := execOnce(o, nil, name)
+			if random {
+				again.Str = first.Str
+			}
+			if again.key() != first.key() {
+				first.Unstable = fmt.Sprintf("repetition %d returned %s, the first call returned %s", i, again.key(), first.key())
+				break
+			}
+		}
+	}
+	return first
+}
+
+func execOnce(o *op, watch *[]liveBuf, name string) obs {
 	for i := 0; i < o.Yield; i++ {
 		runtime.Gosched()
 	}
@@ -162,7 +189,12 @@ func execOp(o *op, watch *[]liveBuf, name string) obs {
 		case "seed":
 			b := bip39.MnemonicToSeed(string(o.Text), string(o.Pass))
 			r.Bytes = append([]byte(nil), b...)
-			if watch != nil {
+			if o.Wipe {
+				full := b[:cap(b)]
+				for i := range full {
+					full[i] = 0xa5
+				}
+			} else if watch != nil {
 				*watch = append(*watch, liveBuf{name: name + " returned seed", live: b[:cap(b)], snap: append([]byte(nil), b[:cap(b)]...)})
 			}
 		case "string":
@@ -247,6 +279,9 @@ func childMain(planPath string) int {
 		if !bytes.Equal(w.live, w.snap) {
 			rep.LaterMutated = append(rep.LaterMutated, w.name)
 		}
+	}
+	for i := range p.Unswapped {
+		rep.Unswapped = append(rep.Unswapped, execOp(&p.Unswapped[i], nil, "unswapped"))
 	}
 	if p.Probe {
 		tee := &teeReader{}
